@@ -280,7 +280,7 @@ def check(run):
     run.extra["attribute_programs"] = len(attrs)
     # ---- 2. seeded random programs; nesting to depth 4
     n_rand = 260 if not thorough else 3000
-    prof = rc.profile(w=dict(expr=6, callc=5, block=2, **{"while": 1, "with": 1}), depth=3, p_calldefs=0.4,
+    prof = rc.profile(w=dict(expr=6, callc=5, block=2, **{"while": 1, "with": 1}), depth=3, p_calldefs=0.4, npy=(0, 2),
                       routes=["context", "context", "unicode", "render"])
     deep = rc.profile(w=dict(expr=6, callc=7, block=1, text=2, mark=3, **{"if": 1, "for": 1, "while": 0, "with": 0, "try": 1}),
                       depth=4, suite=(1, 2), ndefs=(2, 3), max_cost=450)
